@@ -162,11 +162,17 @@ def run(ctx):
             m_ok = (ints == [1, 195] or raw == ['c301']) and m[1] and not m[0].params()
         ctx.ob('CHECK', 'check_header/marker', m_ok, short_loc(ch.span), 'bytes 0..2 compared with C3 01, mismatch => Err: %s' % m_ok)
         fp_ok = False
+        fp_is_param = False
         if fp and fp[0] is not None:
             fp_ok = (any(cname(c).endswith('Schema::rabin_fingerprint') for c in fp[0].calls) or any(a[0] == 'call' and a[1].endswith('Schema::rabin_fingerprint') for a in fp[0].atoms)) and fp[1]
             if fp_ok:
                 fpc = [c for c in fp[0].calls if cname(c).endswith('Schema::rabin_fingerprint')]
                 fp_ok = not fpc or origin(ch, fpc[0]['args'][0]).params() == {2}
+            elif fp[1] and fp[0].params() == {2} and not fp[0].call_names() and not fp[0].has_arith() and '[u8; 8]' in (ch.local_ty(2) or ''):
+                # the caller hands the fingerprint itself (`check_header(header, schema.rabin_fingerprint())`): judged at
+                # the call sites below
+                fp_ok = True
+                fp_is_param = True
         ctx.ob('CHECK', 'check_header/fingerprint', fp_ok, short_loc(ch.span), 'bytes 2..10 compared with the supplied schema\'s rabin_fingerprint(), mismatch => Err: %s' % fp_ok)
         ctx.ob('CHECK', 'check_header/two-comparisons', len(cmps) == 2 and set(got) == {(0, 2), (2, 10)}, short_loc(ch.span), 'ranges compared: %s' % sorted(k for k in got if k), nontrivial=False)
         # Ok only after both
@@ -183,7 +189,14 @@ def run(ctx):
         ok = len(cc) == 1 and len(dd) == 1
         if ok:
             te = try_edges(b, cc[0][0])
-            schema_same = origin(b, cc[0][1]['args'][1]).params() == {2} and origin(b, dd[0][1]['args'][1]).params() == {2}
+            a1 = origin(b, cc[0][1]['args'][1])
+            fpc = [c for c in a1.calls if cname(c).endswith('Schema::rabin_fingerprint')]
+            if fpc:
+                # the fingerprint is computed here and handed over: it must be the supplied schema's
+                arg_ok = origin(b, fpc[0]['args'][0]).params() == {2} and not a1.has_arith()
+            else:
+                arg_ok = a1.params() == {2} and not a1.call_names()
+            schema_same = arg_ok and origin(b, dd[0][1]['args'][1]).params() == {2}
             ok = te is not None and b.dominates(te[0], dd[0][0]) and te[1] is not None and all_paths_err(b, te[1]) and schema_same
         ctx.ob('CHECK', nm, ok, short_loc(b.span), 'check_header(..)? succeeds before %s is called, with the same schema: %s' % (dec, ok))
     header_rule(ctx)
